@@ -25,7 +25,7 @@ func init() {
 	register(&Property{
 		Meta: report.Meta{
 			Property:    "C06",
-			Explanation: "Must-pass-through facts with operand identity in the generic envelope.FromIPLD[T] (all acyclic paths): a token is returned only if PubKey.Verify(data, signature) returned (true, nil) where the key is DID.PubKey(did.Parse(the \"iss\" string of info.tokenPayloadNode)), data is ipld.Encode(info.sigPayloadNode, dagcbor.Encode), the signature is info.Signature and info = Inspect(node); the envelope header equals varsig.Encode(key.Type()); info.Tag equals T.Tag(); and the value returned is unwrapped from a builder into which exactly info.tokenPayloadNode was assigned. Inspect takes the signature from element 0 and the signed map from element 1, accepts only the keys \"h\" and \"ucan/*\", requires exactly two entries with both found, and takes tokenPayloadNode from the iteration of that signed map. No bypass: every exported decoder of token/delegation/invocation returning a token passes through envelope.FromIPLD; tokenFromModel is only called on its dereferenced result; Token structs are only allocated in New and tokenFromModel. The varsig header table is constant-folded: headers are pairwise distinct and cover the key types FromPubKey accepts.",
+			Explanation: "Must-pass-through facts with operand identity in the generic envelope.FromIPLD[T] (all acyclic paths): a token is returned only if PubKey.Verify(data, signature) returned (true, nil) where the key is DID.PubKey(did.Parse(the \"iss\" string of info.tokenPayloadNode)), data is ipld.Encode(info.sigPayloadNode, dagcbor.Encode), the signature is info.Signature and info = Inspect(node); the envelope header equals varsig.Encode(key.Type()); info.Tag equals T.Tag(); and the value returned is unwrapped from a builder into which exactly info.tokenPayloadNode was assigned. Inspect takes the signature from element 0 and the signed map from element 1, accepts only the keys \"h\" and \"ucan/*\", requires exactly two entries with both found, and takes tokenPayloadNode from the iteration of that signed map. No bypass: every exported decoder of token/delegation/invocation returning a token passes through envelope.FromIPLD; tokenFromModel is only called on its dereferenced result; Token structs are only allocated in New and tokenFromModel. The varsig header table is constant-folded: headers are pairwise distinct and cover the key types FromPubKey accepts. (R5) the header table is read off varsig.Encode: a lookup in a package-level map built by a map literal, or one success path per key type returning a package-level header value; all headers are built by one helper from pairwise distinct constant segment lists.",
 			Assumptions: []string{"libp2p PubKey.Verify is a correct signature verification", "dagcbor.Encode is deterministic", "bindnode builds the typed value from exactly the assigned node"},
 			Trusted:     []string{"go-libp2p/core/crypto", "go-ipld-prime (dagcbor, bindnode)", "golang.org/x/tools/go/ssa v0.29.0"},
 			NotDecided:  []string{"that no byte of the input escapes the re-encoding (codec property)", "signature scheme strength"},
